@@ -14,6 +14,7 @@ import (
 	"strconv"
 	"strings"
 	"sync"
+	"time"
 
 	"github.com/tidwall/gjson"
 	"github.com/wundergraph/astjson"
@@ -42,6 +43,7 @@ const (
 const (
 	scNormal   = "normal"
 	scCancel   = "cancel"    // the participant's own client context is cancelled at a scheduled point
+	scDeadline = "deadline"  // the participant's own request deadline expires at a scheduled point (context.DeadlineExceeded)
 	scFailLoad = "fail-load" // its DataSource.Load returns an upstream error (rendered into the body)
 	scFailHard = "fail-hard" // its pre-fetch hook (rate limiter service) fails: a Go error from the resolve call
 )
@@ -64,11 +66,66 @@ type upstreamErr struct{ key string }
 
 func (e *upstreamErr) Error() string { return "upstream failure for " + e.key }
 
+// abortErr is how an "opaque" transport reports a call aborted by the end of the caller's own
+// context: like a gRPC status error it does NOT wrap context.Canceled / DeadlineExceeded.
+type abortErr struct {
+	pid  int
+	code string
+}
+
+func (e *abortErr) Error() string {
+	return fmt.Sprintf("rpc error: code = %s desc = request of p%d aborted", e.code, e.pid)
+}
+
+// writeErr is the failure of one client's own connection while the response is written to it.
+type writeErr struct{ pid int }
+
+func (e *writeErr) Error() string { return fmt.Sprintf("write tcp (client of p%d): i/o timeout", e.pid) }
+
+// deadlineCtx is a request context whose own deadline "expires" when the harness says so:
+// Done closes and Err is context.DeadlineExceeded (the inner context is a plain cancel context).
+type deadlineCtx struct{ context.Context }
+
+func (c deadlineCtx) Err() error {
+	if c.Context.Err() != nil {
+		return context.DeadlineExceeded
+	}
+	return nil
+}
+
+func (c deadlineCtx) Deadline() (time.Time, bool) { return time.Unix(1<<34, 0), true }
+
+// requestContext builds the client context of one participant and the function that ends it.
+func requestContext(script string) (context.Context, context.CancelFunc) {
+	ctx, cancel := context.WithCancel(context.Background())
+	if script == scDeadline {
+		return deadlineCtx{ctx}, cancel
+	}
+	return ctx, cancel
+}
+
+// ended reports how the transport / hook answers a call whose context is over (nil: still live).
+func (w *who) ended(ctx context.Context) error {
+	err := ctx.Err()
+	if err == nil {
+		return nil
+	}
+	if w.opaque {
+		code := "Canceled"
+		if err == context.DeadlineExceeded {
+			code = "DeadlineExceeded"
+		}
+		return &abortErr{w.pid, code}
+	}
+	return err
+}
+
 // who identifies the caller inside the fake DataSource / pre-fetch hook.
 type who struct {
 	pid        int
 	script     string
 	hardCancel bool
+	opaque     bool    // the transport reports an ended context with an error that does not wrap it
 	p          *pstate // nil outside a scheduled scenario
 	s          *sched  // nil outside a scheduled scenario
 	loads      *loadLog
@@ -164,8 +221,9 @@ func (fakeDS) Load(ctx context.Context, headers http.Header, input []byte) ([]by
 	if w.spin != nil {
 		w.spin()
 	}
-	if err := ctx.Err(); err != nil {
-		// what a real HTTP client does when the request context is gone
+	if err := w.ended(ctx); err != nil {
+		// what a real client does when the request context is gone (plain: the context error
+		// itself; opaque: a status-style error that does not wrap it)
 		w.loads.addLoad(loadRec{w.pid, wire, "canceled"})
 		if w.s != nil {
 			w.s.loadReturned(w.p, "canceled")
@@ -209,7 +267,7 @@ func (preFetchHook) RateLimitPreFetch(ctx *resolve.Context, info *resolve.FetchI
 		w.s.reach(w.p, ptPrefetch)
 	}
 	if w.hardCancel {
-		if err := ctx.Context().Err(); err != nil {
+		if err := w.ended(ctx.Context()); err != nil {
 			w.loads.addPrefetch(loadRec{w.pid, wire, "canceled"})
 			if w.s != nil {
 				w.s.prefetchReturned(w.p, "canceled")
@@ -319,37 +377,47 @@ type rig struct {
 	mu       sync.Mutex
 	plans    map[string]*resolve.GraphQLResponse
 	uses     int
+	maxConc  int
 }
 
-func newRig() *rig {
+func newRig(maxConc int) *rig {
+	if maxConc <= 0 {
+		maxConc = 64
+	}
 	ctx, cancel := context.WithCancel(context.Background())
 	return &rig{
-		resolver: resolve.New(ctx, resolve.ResolverOptions{MaxConcurrency: 64, PropagateSubgraphErrors: true}),
+		resolver: resolve.New(ctx, resolve.ResolverOptions{MaxConcurrency: maxConc, PropagateSubgraphErrors: true}),
 		stop:     cancel,
 		plans:    map[string]*resolve.GraphQLResponse{},
+		maxConc:  maxConc,
 	}
 }
 
 var (
-	sharedMu  sync.Mutex
-	sharedRig *rig
+	sharedMu   sync.Mutex
+	sharedRigs = map[int]*rig{}
 )
 
-// acquireRig hands out the process-wide resolver (recreated every few hundred scenarios and
-// after every scenario that did not end cleanly). Sharing it between scenarios keeps the arena
-// pools warm, so buffers really are recycled between and during scenarios.
-func acquireRig() *rig {
+// acquireRig hands out the process-wide resolver for one MaxConcurrency setting (recreated every
+// few hundred scenarios and after every scenario that did not end cleanly). Sharing it between
+// scenarios keeps the arena pools warm, so buffers really are recycled between and during scenarios.
+func acquireRig(maxConc int) *rig {
+	if maxConc <= 0 {
+		maxConc = 64
+	}
 	sharedMu.Lock()
 	defer sharedMu.Unlock()
-	if sharedRig != nil && sharedRig.uses >= 400 {
-		sharedRig.stop()
-		sharedRig = nil
+	r := sharedRigs[maxConc]
+	if r != nil && r.uses >= 400 {
+		r.stop()
+		r = nil
 	}
-	if sharedRig == nil {
-		sharedRig = newRig()
+	if r == nil {
+		r = newRig(maxConc)
+		sharedRigs[maxConc] = r
 	}
-	sharedRig.uses++
-	return sharedRig
+	r.uses++
+	return r
 }
 
 // discardRig drops the shared resolver (after a violation, a wedge or a watchdog expiry).
@@ -357,8 +425,8 @@ func discardRig(r *rig) {
 	sharedMu.Lock()
 	defer sharedMu.Unlock()
 	r.stop()
-	if sharedRig == r {
-		sharedRig = nil
+	if sharedRigs[r.maxConc] == r {
+		delete(sharedRigs, r.maxConc)
 	}
 }
 
@@ -410,7 +478,8 @@ type outcome struct {
 	Returned bool   `json:"returned"`
 	Panic    string `json:"panic,omitempty"`
 	Stack    string `json:"-"`
-	Out      string `json:"out"`
+	Out      string `json:"out"` // what the engine handed to the client's writer
+	Delivered string `json:"-"`  // what the writer accepted (empty when the client's connection failed)
 	Err      string `json:"err,omitempty"`
 	err      error
 	Dedup    bool `json:"dedup"`
@@ -419,7 +488,7 @@ type outcome struct {
 
 // alone runs one request on a fresh resolver with nothing else in flight.
 func alone(layer, opType string, k Key, alt bool, script string) outcome {
-	r := newRig()
+	r := newRig(0)
 	defer r.stop()
 	w := &who{pid: -1, script: script, loads: &loadLog{}}
 	rc := r.request(context.Background(), layer, opType, k, alt, w)
